@@ -3406,7 +3406,6 @@ static size_t ZSTDv05_decompress_continueDCtx(ZSTDv05_DCtx* dctx,
         {
         case bt_compressed:
             decodedSize = ZSTDv05_decompressBlock_internal(dctx, op, oend-op, ip, cBlockSize);
-            if (!ZSTDv05_isError(decodedSize) && decodedSize > BLOCKSIZE) return ERROR(corruption_detected);   /* ZSTD_decompressBound() counts on it */
             break;
         case bt_raw :
             decodedSize = ZSTDv05_copyRawBlock(op, oend-op, ip, cBlockSize);
@@ -3424,6 +3423,7 @@ static size_t ZSTDv05_decompress_continueDCtx(ZSTDv05_DCtx* dctx,
         if (cBlockSize == 0) break;   /* bt_end */
 
         if (ZSTDv05_isError(decodedSize)) return decodedSize;
+        if (decodedSize > BLOCKSIZE) return ERROR(corruption_detected);   /* no block regenerates more than that, whatever its type */
         op += decodedSize;
         ip += cBlockSize;
         remainingSize -= cBlockSize;
@@ -3587,7 +3587,6 @@ size_t ZSTDv05_decompressContinue(ZSTDv05_DCtx* dctx, void* dst, size_t maxDstSi
             {
             case bt_compressed:
                 rSize = ZSTDv05_decompressBlock_internal(dctx, dst, maxDstSize, src, srcSize);
-                if (!ZSTDv05_isError(rSize) && rSize > BLOCKSIZE) return ERROR(corruption_detected);   /* as the single-call decoder */
                 break;
             case bt_raw :
                 rSize = ZSTDv05_copyRawBlock(dst, maxDstSize, src, srcSize);
@@ -3604,6 +3603,7 @@ size_t ZSTDv05_decompressContinue(ZSTDv05_DCtx* dctx, void* dst, size_t maxDstSi
             dctx->stage = ZSTDv05ds_decodeBlockHeader;
             dctx->expected = ZSTDv05_blockHeaderSize;
             if (ZSTDv05_isError(rSize)) return rSize;
+            if (rSize > BLOCKSIZE) return ERROR(corruption_detected);   /* as the single-call decoder */
             dctx->previousDstEnd = (char*)dst + rSize;
             return rSize;
         }
